@@ -11,11 +11,16 @@ RULE = ('sets of held functions over <=5 variables (pairs of functions of 3 vari
         '(held truth tables, starting order, operation); non-trivial = a held function is '
         'non-constant')
 EXHAUSTIVE = {'quick': False, 'thorough': False}
-ASSUMES = ['dynamic reordering disabled while the explicit reordering runs (last_len = None)']
+ASSUMES = ['explicit reorderings are run both with dynamic reordering disabled and enabled (low threshold)']
+
+
+DYN = [False]      # run the explicit reorderings with dynamic reordering enabled
 
 
 class Held:
     def __init__(self, ctx, label, n, order, tts, aged=False):
+        if DYN[0]:
+            label = 'dynamic-on ' + label
         self.ctx = ctx
         self.n = n
         self.M = Mgr(ctx, label, n, order, aged=aged)
@@ -31,6 +36,11 @@ class Held:
             self.ledger[abs(u)] = self.ledger.get(abs(u), 0) + 1
             self.refs.setdefault(u, t)
         self.names_tt = {u: self.by_name(u) for u in list(self.refs) + list(self.M.held)}
+        self.dyn = DYN[0]
+        if self.dyn:
+            # growth threshold low enough for a request at the first node created
+            self.M.op('configure', True)
+            self.M.op('set_last_len', ctx.rng.choice([1, 2, 3]))
 
     def by_name(self, u):
         return oracle.tt_fast(self.M.b, u, [vname(i) for i in range(self.n)])
@@ -51,6 +61,12 @@ class Held:
         if bad:
             self.ctx.violation('C07:not-canonical', f'{what}: {bad[:3]}', M.case())
             return False
+        if M.s.last_result() == 'err:needs_reordering':
+            self.ctx.violation('C07:signal', f'{what}: the internal reordering signal reached the caller', M.case())
+            return False
+        if self.dyn and b._last_len is None:
+            self.ctx.violation('C07:disabled-afterwards', f'{what}: dynamic reordering was switched off', M.case())
+            return False
         return True
 
     def order(self):
@@ -58,6 +74,8 @@ class Held:
         return [b._level_to_var[i] for i in range(len(b.vars))]
 
     def finish(self):
+        if self.dyn:
+            self.M.op('configure', False)
         for u in self.refs:
             self.M.op('decref', u)
 
@@ -136,6 +154,16 @@ def sifting(ctx, n, order, tts, reps=1, aged=False):
 def run(ctx):
     q = ctx.quick
     rng = ctx.rng
+    run_streams(ctx, q, rng)
+    # the same explicit reorderings while dynamic reordering is enabled
+    DYN[0] = True
+    try:
+        run_streams(ctx, True, rng)
+    finally:
+        DYN[0] = False
+
+
+def run_streams(ctx, q, rng):
     # swaps: pairs of held functions over 3 variables, every order
     for order in gen.orders(3):
         for _ in range(3 if q else 40):
